@@ -31,7 +31,6 @@ def plainEmits (k : Kind) (v : Val) : Bool :=
   | _ =>
     match k with
     | .marker => false
-    | .signature => false
     | _ => true
 
 /-- the items the encoder emits for one field of kind `k` holding `v` (the type number is the
@@ -375,6 +374,7 @@ theorem bodyOf_length_lt (k : Kind) (v : Val) (hwf : wfKind k = true) (hv : vali
   · simp only [nameOk, Bool.and_eq_true, maxLen] at hv
     have := of_decide_eq_true hv.2; omega
   · have := of_decide_eq_true hv.2; omega
+  · have := of_decide_eq_true hv; omega
   · rw [stripDigest_id _ hv.2]
     have hv1 := hv.1
     simp only [nameOk, Bool.and_eq_true, maxLen] at hv1
